@@ -359,7 +359,15 @@ func (ctx *Context) LoadNameWithDetail(name string, isRaw bool, useHook bool, de
 	// 先local再global
 	curCtx := ctx
 	for {
+		if curCtx != ctx && curCtx.NumOpCount < ctx.NumOpCount {
+			// 上层的计数要等本层返回后才会更新；在上层找到的 computed 会以上层的计数为起点执行，先同步过去
+			curCtx.NumOpCount = ctx.NumOpCount
+		}
 		ret := curCtx.LoadNameLocalWithDetail(name, isRaw, detail)
+		if curCtx != ctx && ctx.NumOpCount < curCtx.NumOpCount {
+			// 并把其消耗记回本层，否则本层返回时会用旧值覆盖上层的计数
+			ctx.NumOpCount = curCtx.NumOpCount
+		}
 
 		if curCtx.Error != nil {
 			ctx.Error = curCtx.Error
